@@ -406,9 +406,9 @@ class Own(Interp):
             recv = self.to_ov(recv)
         r = self.to_ov(recv)
         pos = [a for a in args if not (isinstance(a, tuple) and len(a) == 2 and a[0] == "*")]
-        if attr in api.GENERATOR_MUTATING and pos and not (r.elems is not None) and attr == "shuffle":
+        if attr in api.GENERATOR_MUTATING and (pos or "x" in kwargs) and not (r.elems is not None) and attr == "shuffle":
             # rng.shuffle(x) writes x
-            self.write(ctx, n, self.to_ov(pos[0]), "rng.shuffle", n.args[0] if n.args else None)
+            self.write(ctx, n, self.to_ov(pos[0] if pos else kwargs["x"]), "rng.shuffle", n.args[0] if n.args else None)
             return OV([IMM])
         if attr in api.MUTATING_METHODS and not (r.labels == {IMM}):
             if attr == "sort" and False:
